@@ -239,6 +239,8 @@ def run(report, p):
                 groups["file"].append(g.node_for(call))
             else:
                 r4.check(False, sp, call, f"unrecognised pattern source `{a0}` in set_patterns")
+    if not any(groups.values()):
+        raise AnalysisError("MHLIgnoreSpec.set_patterns: no call of an append helper of the spec found (helpers renamed or inlined?); the accumulation rule cannot be evaluated on this shape")
     ok = all(groups.values())
     if ok:
         def before(A, B):
